@@ -236,9 +236,28 @@ func c05Run(inI interface{}, env *Env) *Failure {
 		what string
 		fs   func() filesystem.Filespace
 	}
+	// secrets and salts that differ from the configured ones in one place only: longer by a
+	// byte, or (same length) in the first, the middle or the last byte
+	flipAt := func(v string, i int) string {
+		b := []byte(v)
+		b[i] ^= 0x01
+		return string(b)
+	}
 	others := []other{
 		{"another secret", func() filesystem.Filespace { return mk(in.Cipher, in.Secret+"x", in.Salt, in.HostOnly) }},
 		{"another salt", func() filesystem.Filespace { return mk(in.Cipher, in.Secret, "x"+in.Salt, in.HostOnly) }},
+	}
+	if n := len(in.Secret); n > 0 {
+		for _, i := range []int{0, n / 2, n - 1} {
+			i := i
+			others = append(others, other{"another secret", func() filesystem.Filespace { return mk(in.Cipher, flipAt(in.Secret, i), in.Salt, in.HostOnly) }})
+		}
+	}
+	if n := len(in.Salt); n > 0 {
+		for _, i := range []int{0, n - 1} {
+			i := i
+			others = append(others, other{"another salt", func() filesystem.Filespace { return mk(in.Cipher, in.Secret, flipAt(in.Salt, i), in.HostOnly) }})
+		}
 	}
 	for _, o := range others {
 		env.Count("fault.wrong-key:" + o.what)
